@@ -343,10 +343,10 @@ func TestC13_PVSS(t *testing.T) {
 	ev := evFor("C13")
 	ev.Rule(c13Rule)
 	ev.Assume("the share index field is positional in this API and not bound by the proofs: it is not in the mutation set")
-	rcheck(t, 500, 12000, func(t *rapid.T) { c13PVSS(t, ev) })
+	rcheck(t, 500, 96000, func(t *rapid.T) { c13PVSS(t, ev) })
 }
 
 func TestC13_DLEQ(t *testing.T) {
 	ev := evFor("C13")
-	rcheck(t, 800, 20000, func(t *rapid.T) { c13DLEQ(t, ev) })
+	rcheck(t, 800, 160000, func(t *rapid.T) { c13DLEQ(t, ev) })
 }
